@@ -289,15 +289,27 @@ func (g *beh) files(o renderOpts) map[string]string {
 				}
 				dn := di + 1
 				id := func(s int) string { return fmt.Sprintf("%d.%d.%d", p, dn, s) }
+				// concrete syntax of a var declaration: with or without the type, alone or in a
+				// parenthesised group (the specification does not tell them apart)
+				typ, open, shut := "", "var ", "\n\n"
+				if !plainSites {
+					h := g.salt() + p*13 + dn*17
+					if h%2 == 1 {
+						typ = " int"
+					}
+					if (h/2)%3 == 1 {
+						open, shut = "var (\n\t", "\n)\n\n"
+					}
+				}
 				switch d.K {
 				case "v1":
-					fmt.Fprintf(&b, "var V%d = logv(%s)\n\n", dn, g.args(p, id(1), d.R, d.Sh))
+					fmt.Fprintf(&b, "%sV%d%s = logv(%s)%s", open, dn, typ, g.args(p, id(1), d.R, d.Sh), shut)
 				case "v2":
-					fmt.Fprintf(&b, "var V%d, W%d = log2(%s)\n\n", dn, dn, g.args(p, id(1), d.R, 0))
+					fmt.Fprintf(&b, "%sV%d, W%d%s = log2(%s)%s", open, dn, dn, typ, g.args(p, id(1), d.R, 0), shut)
 				case "pr":
-					fmt.Fprintf(&b, "var V%d, W%d = logv(%s), logv(%s)\n\n", dn, dn, g.args(p, id(1), d.R, 0), g.args(p, id(2), d.R2, 0))
+					fmt.Fprintf(&b, "%sV%d, W%d%s = logv(%s), logv(%s)%s", open, dn, dn, typ, g.args(p, id(1), d.R, 0), g.args(p, id(2), d.R2, 0), shut)
 				case "vb":
-					fmt.Fprintf(&b, "var _ = logv(%s)\n\n", g.args(p, id(1), d.R, 0))
+					fmt.Fprintf(&b, "%s_%s = logv(%s)%s", open, typ, g.args(p, id(1), d.R, 0), shut)
 				case "in":
 					fmt.Fprintf(&b, "func init() { logv(%s) }\n\n", g.args(p, id(0), d.R, 0))
 				case "fn", "mt":
